@@ -54,13 +54,22 @@ fn stage(i: &Input, c: &mut Case) -> Result<(), String> {
     let mut t = Tape::new(i.tape());
     let m = gen_mixed(&mut t, MixOpts::default());
     let cfg = gen_read_cfg(&mut t, &m, false);
+    // how the source hands the bytes over is no part of the input: a third of the cases are read through short reads of one size
+    // (drawn last from the tape so that recorded tapes keep their meaning)
+    let chunk = if t.chance(1, 3) { *t.pick(&[1usize, 2, 3, 5, 7, 13, 16, 40, 61]) } else { 0 };
+    c.label_if(chunk > 0, "short_reads");
     c.label(m.origin.label());
     c.label_if(cfg.tolerate != 0, "tolerant");
     c.label_if(!cfg.buffered.is_empty(), "buffered_set");
     c.label_if(cfg.capacity.map(|x| x < m.bytes.len()).unwrap_or(false), "after_compaction");
-    c.key(&(&m.bytes, cfg.tolerate, &cfg.buffered, cfg.capacity));
-    c.sample_with(|| format!("{} | cfg {}", describe_mixed(&m), cfg.render()));
-    let obs = with_spec!(m.spec, T => read_all::<T>(&m.bytes, &cfg));
+    c.key(&(&m.bytes, cfg.tolerate, &cfg.buffered, cfg.capacity, chunk));
+    c.sample_with(|| format!("{} | cfg {}{}", describe_mixed(&m), cfg.render(), if chunk == 0 { String::new() } else { format!(" | reads of {} bytes", chunk) }));
+    let obs = if chunk == 0 {
+        with_spec!(m.spec, T => read_all::<T>(&m.bytes, &cfg))
+    } else {
+        let steps: Vec<RStep> = (0..m.bytes.len().div_ceil(chunk)).map(|_| RStep::Chunk(chunk)).collect();
+        with_spec!(m.spec, T => read_from::<T, _>(ScriptRead::new(&m.bytes, steps), &cfg, item_bound(m.bytes.len())))
+    };
     match obs.last() {
         Some(Obs::Panic(p)) => return Err(format!("iterator panicked: {}\n  input: {}\n  cfg: {}", p, describe_mixed(&m), cfg.render())),
         Some(Obs::Runaway(n)) => return Err(format!("iterator produced more than {} items\n  input: {}", n, describe_mixed(&m))),
@@ -81,7 +90,7 @@ pub const STAGES: &[Stage] = &[Stage { name: "mirror", f: stage }];
 
 pub fn run(rc: &mut RunCtx) {
     rc.run_pt(STAGES[0], rc.pick(960_000, 5_000_000), (96, 500));
-    for l in ["has_full", "tolerant", "input_mid_document", "input_mutated", "after_compaction", "implied_ancestor_end"] {
+    for l in ["has_full", "tolerant", "input_mid_document", "input_mutated", "after_compaction", "implied_ancestor_end", "short_reads"] {
         rc.require_label("mirror", l, 10_000);
     }
     if !rc.quick() {
